@@ -3,6 +3,7 @@ package roundtimer
 // C17(a): RoundTimeout arithmetic for every role, symbolic height, round and clock.
 
 import (
+	"context"
 	"sync"
 	"time"
 
@@ -82,4 +83,65 @@ func ZZHarnessRoundTimeoutConsecutive() {
 	// non-decreasing clock: the second reading is not earlier than the first
 	zzAssert(d2-d1 <= allowance, "next-round-deadline-at-most-one-allowance-later")
 	zzReach("computed")
+}
+
+// C17(b): arm / re-arm / cancel on the real RoundTimer under the engine's virtual clock and timers.
+func ZZHarnessArming() {
+	role := zzRoles[zzChoose("role", 2)]
+	k := int(zzParam("K"))
+	ctx, cancel := context.WithCancel(context.Background())
+	height := zzNondetRange("height", 0, 1<<20)
+	slotStart := time.Unix(1_600_000_000+int64(height)*12, 0)
+	lastArmed := uint64(0)
+	count := map[uint64]int{}
+	cancelled := false
+	var cancelAt time.Time
+	ncalls := 0
+	armedBeforeCancel := map[uint64]bool{}
+	// the duty's slot has started (timers are armed when a duty starts); keeps the final flush finite
+	zzAssume(!time.Now().Before(slotStart))
+	t := New(ctx, zzBN{}, role, func(r specqbft.Round) {
+		now := time.Now()
+		ncalls++
+		zzReach("callback")
+		zzAssert(uint64(r) == lastArmed, "callback-only-for-most-recently-armed-round")
+		count[uint64(r)]++
+		zzAssert(count[uint64(r)] <= 1, "callback-at-most-once-per-arming")
+		deadline := slotStart.Add(zzOffset(role, uint64(r)))
+		zzAssert(!now.Before(deadline), "callback-not-before-deadline")
+		if cancelled && armedBeforeCancel[uint64(r)] {
+			zzAssert(!cancelAt.Before(deadline), "no-callback-when-cancelled-before-the-deadline")
+		}
+	})
+	cancelStep := zzChoose("cancelStep", k+2) // k+1 = never
+	round := uint64(0)
+	for step := 0; step < k; step++ {
+		if step == cancelStep {
+			cancelAt = time.Now()
+			cancelled = true
+			cancel()
+			zzYield() // goroutines woken by the cancellation run promptly
+			zzReach("cancelled")
+		}
+		round += zzNondetRange("roundInc", 1, 2)
+		lastArmed = round
+		armedBeforeCancel[round] = !cancelled
+		t.TimeoutForRound(specqbft.Height(height), specqbft.Round(round))
+		// let an arbitrary amount of time pass before the next arming (re-arm before or after expiry)
+		time.Sleep(time.Duration(zzNondetRange("gap", 0, 400)) * time.Second)
+	}
+	if cancelStep == k {
+		cancelAt = time.Now()
+		cancelled = true
+		cancel()
+		zzYield()
+		zzReach("cancelled")
+	}
+	// flush: long after every deadline
+	time.Sleep(3 * time.Hour)
+	if !cancelled {
+		zzAssert(count[lastArmed] == 1, "last-armed-round-fires-exactly-once-when-not-cancelled")
+	}
+	zzAssert(ncalls <= k, "no-more-callbacks-than-armings")
+	zzReach("end")
 }
